@@ -31,6 +31,9 @@ pub fn instances(tier: &str) -> Vec<String> {
     for j in 0..3usize { v.push(format!("cscalar_nan:iters=1,at={}", j)); }
     for j in 0..2usize { v.push(format!("sys_nan:n=1,iters=2,at={}", j)); }
     for j in 0..2usize { v.push(format!("sysjac_nan:n=1,iters=2,at={}", j)); }
+    // NaN in a component other than the first (the infinity norm of the residual must not skip it)
+    for j in 0..2usize { v.push(format!("sys_nan:n=2,iters=2,at={},pos=1", j)); v.push(format!("sysjac_nan:n=2,iters=2,at={},pos=1", j)); }
+    if tier == "thorough" { for j in 0..2usize { for pos in 0..3usize { v.push(format!("sysjac_nan:n=3,iters=2,at={},pos={}", j, pos)); } } }
     v
 }
 
@@ -132,11 +135,12 @@ pub fn body(inst: &str) {
         }
         "sys_nan" | "sysjac_nan" => {
             let at = geti(&p, "at");
+            let pos = p.get("pos").map(|s| s.parse::<usize>().unwrap()).unwrap_or(0);
             let x0 = var_vec("x0", n);
             let calls: RefCell<usize> = RefCell::new(0);
             // NaN is injected into a RESIDUAL evaluation (the call that the stopping test looks at); NaN arguments give NaN results
             let per = if kind == "sysjac_nan" { 1 } else { n + 2 };
-            let f = |x: Vec64| -> Vec64 { let k = *calls.borrow(); *calls.borrow_mut() += 1; let poisoned = (0..x.size()).any(|i| x[i].is_nan()); Vector::create((0..n).map(|i| if poisoned || (k == at * per && i == 0) { Sym::NAN } else { Sym::var(&format!("F{}_{}", k, i)) }).collect()) };
+            let f = |x: Vec64| -> Vec64 { let k = *calls.borrow(); *calls.borrow_mut() += 1; let poisoned = (0..x.size()).any(|i| x[i].is_nan()); Vector::create((0..n).map(|i| if poisoned || (k == at * per && i == pos) { Sym::NAN } else { Sym::var(&format!("F{}_{}", k, i)) }).collect()) };
             let jc: RefCell<usize> = RefCell::new(0);
             let jac = |_x: Vec64| -> Mat64 { let k = *jc.borrow(); *jc.borrow_mut() += 1; let mut j = Mat64::new(n, n, z()); for a in 0..n { for b in 0..n { j[(a, b)] = Sym::var(&format!("J{}_{}_{}", k, a, b)); } } j };
             let mut nw = Newton::<Vec64>::new(Vector::create(x0.clone()));
